@@ -13,12 +13,15 @@
 //
 // LANES (program family + op menu; lane A is the main one)
 //   A  all composite kinds and modes, harness leaves (ProbeLeaf: succeed/fail/block/never/flip x delay)
-//   X  same shapes, leaves S0/F1/B1 plus at least one of: SleepAction(50 ms; both constructors), FunctionAction (true/false; all four callable overloads),
-//      "late" probe leaves LS1/LF1 whose completion arrives although the leaf was paused or stopped meanwhile (finish() after stop must be refused)
-//   N  two nested composites (one representative mode per kind, arity <= 2), leaves S0/F1 + one of B1 / flip / a timeout on the INNER composite
+//   X  same shapes (+ Repeat without setTimes), leaves S0/F1 plus at least one of: SleepAction(50 ms; both constructors), FunctionAction (true/false; all four callable
+//      overloads, constructor or setFunc), Fn! (a FunctionAction whose function stops the ROOT from inside the start), "late" probe leaves LS1/LF1/LB1 whose finish()/block()
+//      arrives although the leaf was paused or stopped meanwhile (must be refused without effect after stop), BB1 (blocks again after the resume); extra op advance+7
+//   N  two nested composites (one representative mode per kind, arity <= 2; inner Sequence/Parallel also with NO children), leaves S0/F1 + one of B1 / flip /
+//      a timeout on the inner composite / on root AND inner composite (same timer phase) / on the first leaf
 //   T  one composite level (8 representative shapes), leaves S1 + up to two of N/F1/B1/SleepAction, with and without an initial root timeout, extra ops
-//      set-timeout (setTimeout on a running/paused root, also repeatedly) and reset-timeout (resetTimeout)
-//   R  lane A's shapes and leaves; the root's finish callback re-uses the tree once from inside the notification: reset(); start();
+//      set-timeout (setTimeout on a running/paused root, also repeatedly), reset-timeout (resetTimeout) and advance+7 (the clock overshoots the earliest timer by 7 ms)
+//   R  lane A's shapes and leaves; the root's finish callback acts on the tree from inside the notification, once: re-use (reset(); start();) or, by variant bit 4,
+//      DELETE it (what ActionExecutor does) - then three more loop passes: nothing may arrive, no timer may be left, ASan watches
 // `advance-timeout` moves the virtual clock to the instant of the earliest armed timer of the loop (action timeouts and SleepAction timers).
 // After every history that reaches a new canonical state with something queued or armed, a terminal `destroy` is tried as well: delete the tree
 // as it is and run the loop (ASan + "no notification after destroy").
@@ -41,6 +44,11 @@
 //      - a composite finishes from a timer callback only if a timeout is configured on it and the full span has passed since its run
 //        started / the timeout was set (never after resetTimeout)
 //      - library leaves: FunctionAction finishes with its function's return value, SleepAction with success; a SleepAction under way has its timer armed
+//      - pause: between an accepted pause() of the root and the next resume/stop/reset no node is started, no leaf completes or blocks (late leaves excepted),
+//        nothing below the root is running and no paused SleepAction has its timer armed
+//      - block(): refused without effect once the leaf is stopped/finished, accepted while under way; every delivered block notification has a cause
+//        (a block() call of that leaf / a block notification received from a child in this run)
+//      - below a finished/stopped node every descendant's run has been ended (model flag, not only the implementation's state)
 //      - destroy at any moment: no notification afterwards, no timer left armed, no task touching the freed tree (ASan)
 //      - final hook exactly once per run that ended by finish or stop
 //      - after reset every node is idle/unsure, and the continuation (rest of the history + drain) is trace-equal
@@ -53,6 +61,7 @@
 //      to the child notifications actually delivered to it, and checks every child start and the node's own finish
 //      (and result) against it. Local per node, hence independent of nesting, of timing and of Parallel interleaving.
 #include "hist/hist.h"
+#include "probe.h"
 #include <tbox/event/loop.h>
 #include <tbox/event/common_loop.h>
 #include <tbox/event/timer_event.h>
@@ -84,6 +93,8 @@ extern "C" int clock_gettime(clockid_t, struct timespec *ts) { ts->tv_sec = vnow
 extern "C" int gettimeofday(struct timeval *tv, void *) { if (tv) { tv->tv_sec = vnow / 1000; tv->tv_usec = (vnow % 1000) * 1000; } return 0; }
 static double real_now() { struct timespec ts; syscall(SYS_clock_gettime, CLOCK_MONOTONIC, &ts); return ts.tv_sec + ts.tv_nsec * 1e-9; }   // deadline needs the real clock
 
+// private members that only feed the canonical state key or the whitebox classification are read through probes (a rename must not stop the check from building)
+VF_PROBE(timer_ev_) VF_PROBE(finished_children_) VF_PROBE(curr_action_) VF_PROBE(child_finish_func_) VF_PROBE(index_) VF_PROBE(remain_times_) VF_PROBE(finish_time_) VF_PROBE(remain_time_span_) VF_PROBE(what) VF_PROBE(id)
 using namespace tbox; using namespace tbox::flow;
 using St = Action::State;
 static const int T_MS = 100;         // root timeout
@@ -97,11 +108,15 @@ static const char *kLoopMode[] = {"Forever", "UntilFail", "UntilSucc"};
 static const char *kRepMode[] = {"NoBreak", "BreakFail", "BreakSucc"};
 static const char *kWrapMode[] = {"Normal", "Invert", "AlwaySucc", "AlwayFail"};
 
-enum Out { oS, oF, oB, oN, oSF, oFS, oSL, oFP, oFM, oLS, oLF };   // succeed / fail / block (then succeed when resumed) / never / succeed on the first run then fail / fail first then succeed /
+enum Out { oS, oF, oB, oN, oSF, oFS, oSL, oFP, oFM, oLS, oLF, oLB, oBB, oFX, oSX };   // succeed / fail / block (then succeed when resumed) / never / succeed on the first run then fail / fail first then succeed /
 // library leaves: SleepAction(50 ms) / FunctionAction returning true / false / "late" probe leaves: succeed / fail after <delay> passes EVEN IF the leaf was paused or stopped meanwhile
 // (an asynchronous completion that arrives late: finish() must be refused and nothing delivered once the leaf is stopped; it is accepted while the leaf is only paused)
-static const char *kOut[] = {"S", "F", "B", "N", "SF", "FS", "SL", "Fn+", "Fn-", "LS", "LF"};
-static bool lib_leaf(int out) { return out == oSL || out == oFP || out == oFM; }
+// LB = late leaf whose late call is block() (refused without effect once stopped/finished; after a resume it succeeds) / BB = blocks, and after the resume blocks a second time, then succeeds /
+// Fn! = FunctionAction whose function calls root->stop() and returns true (a control call from inside a start) / S! = probe leaf calling root->stop() in onStart and completing LATER
+// (only with C17_STOP_IN_ONSTART_DELAYED=1: on the unchanged code it is left running below the stopped root - observation, reading question)
+static const char *kOut[] = {"S", "F", "B", "N", "SF", "FS", "SL", "Fn+", "Fn-", "LS", "LF", "LB", "BB", "Fn!", "S!"};
+static bool lib_leaf(int out) { return out == oSL || out == oFP || out == oFM || out == oFX; }
+static bool g_stop_delayed = getenv("C17_STOP_IN_ONSTART_DELAYED") != nullptr;
 static const int SLEEP_MS = 50;      // SleepAction time span
 struct Script { uint8_t out, delay, msg; };   // delay: 0 = inside onStart (onResume for B), 1/2 = that many passes later; msg: 0 "", 1 "case:a", 2 "case:b"
 static const char *kMsg[] = {"", "case:a", "case:b"};
@@ -120,11 +135,14 @@ static const char *role_of(int k, int var, int pos) {
   return "";
 }
 struct Node { int k, mode, var, parent, pos, leafno, depth; std::vector<int> ch; bool under_loop, under_switch, has_b; };
-// timeout: 0 none, 1 on the root, 2 on the first inner composite (lane N). alt: construction variant bits derived from the program index (zero weight):
+// timeout: 0 none, 1 on the root, 2 on the first inner composite, 3 on the root AND the inner composite (both expire in the same timer phase), 4 on the first leaf (2-4: lane N).
+// alt bit2: Parallel/Loop/Wrapper built with the default mode + setMode(); FunctionAction(loop) + setFunc(). alt bit3: the root is re-configured at every reset (setMode to the
+// next mode, Repeat also setTimes 1<->2): the monitors and the fresh twin follow the new configuration. alt: construction variant bits derived from the program index (zero weight):
 //   Loop/Wrapper bit0 -> constructor taking the child; Repeat alt%3 -> (times,mode)+setChild | (child,times,mode) | default constructor+setTimes+setMode+setChild;
 //   IfElse bit0 -> role names "succ"/"fail"; Sequence bit0 -> default mode + setMode; LoopIf alt%3 -> default | setFinishResult(false) | setFinishResult(true);
 //   FunctionAction leaves: overload (alt/2+leafno)%4 of the four callable types; SleepAction leaves: bit0 -> Generator constructor
-struct Program { std::vector<Node> n; std::vector<Script> sc; int timeout; std::string text; int nleaves; long index; int weight; unsigned alt; int to_node; };
+struct Program { std::vector<Node> n; std::vector<Script> sc; int timeout; std::string text; int nleaves; long index; int weight; unsigned alt; std::vector<int> to_nodes;
+  bool toOn(int i) const { for (int t : to_nodes) if (t == i) return true; return false; } };
 // C17_PAUSE_ORACLE_ANY=1: demand "no running descendant" below EVERY paused node. Fails on the unchanged code (observation, reading question: resume() does not
 // withdraw a block notification that is still queued): Sequence[B1] ; start pass pause resume pass -> the leaf's queued block arrives after the resume, the root turns
 // kPause (blocked) while the leaf it has just resumed is running.
@@ -136,7 +154,7 @@ static std::string script_str(const Script &s) { std::string r = kOut[s.out]; if
 static std::string head_str(int k, int mode, int var) {
   std::string h = kKind[k];
   switch (k) { case SEQ: case PAR: h += std::string(".") + kSeqMode[mode]; break; case LOOP: h += std::string(".") + kLoopMode[mode]; break;
-    case REPEAT: h += "(" + std::to_string(var) + ")." + kRepMode[mode]; break; case WRAP: h += std::string(".") + kWrapMode[mode]; break; default: break; }
+    case REPEAT: h += "(" + (var ? std::to_string(var) : std::string("default-times")) + ")." + kRepMode[mode]; break; case WRAP: h += std::string(".") + kWrapMode[mode]; break; default: break; }
   return h;
 }
 static void flatten(const Shape &s, int parent, int pos, int depth, Program &p, bool ul, bool us, bool hb) {
@@ -164,7 +182,8 @@ static std::vector<SpecT> all_specs() {
   std::vector<SpecT> v;
   if (g_lane == 'N') {   // one representative mode per kind, arity <= 2
     v.push_back({SEQ, 0, 0, 2}); v.push_back({PAR, 0, 0, 2}); v.push_back({IFTHEN, 0, 1, 2}); v.push_back({LOOP, 2, 0, 1}); v.push_back({LOOPIF, 0, 0, 2});
-    v.push_back({REPEAT, 0, 2, 1}); v.push_back({WRAP, 1, 0, 1}); v.push_back({COMP, 0, 0, 1}); return v; }
+    v.push_back({REPEAT, 0, 2, 1}); v.push_back({WRAP, 1, 0, 1}); v.push_back({COMP, 0, 0, 1});
+    v.push_back({SEQ, 0, 0, 0}); v.push_back({PAR, 0, 0, 0}); return v; }   // + no children at all (inner nodes only)
   if (g_lane == 'T') { v.push_back({SEQ, 0, 0, 2}); v.push_back({PAR, 0, 0, 2}); v.push_back({PAR, 2, 0, 2}); v.push_back({IFELSE, 0, 0, 3}); v.push_back({LOOP, 0, 0, 1}); v.push_back({REPEAT, 0, 2, 1});
     v.push_back({WRAP, 1, 0, 1}); v.push_back({COMP, 0, 0, 1}); return v; }
   for (int m = 0; m < 3; m++) for (int a = 1; a <= 4; a++) v.push_back({SEQ, m, 0, a});
@@ -175,6 +194,7 @@ static std::vector<SpecT> all_specs() {
   for (int m = 0; m < 3; m++) v.push_back({LOOP, m, 0, 1});
   v.push_back({LOOPIF, 0, 0, 2});
   for (int t = 1; t <= 2; t++) for (int m = 0; m < 3; m++) v.push_back({REPEAT, m, t, 1});
+  if (g_lane == 'X' || g_lane == 'R') for (int m = 1; m < 3; m++) v.push_back({REPEAT, m, 0, 1});   // RepeatAction(loop) without setTimes(): the default count (lane A keeps its program numbering)
   for (int m = 0; m < 4; m++) v.push_back({WRAP, m, 0, 1});
   v.push_back({COMP, 0, 0, 1});
   return v;
@@ -203,8 +223,8 @@ static std::vector<SInfo> gen_shapes(int maxd, int maxc, int maxl, int maxw, int
 static int shape_weight(const SInfo &x) { return weight_of(x.comps, x.depth, x.leaves); }
 struct Alt { Script s; int w; };
 static std::vector<Alt> alphabet(const Node &n) {
-  std::vector<Alt> a; auto add = [&](int out, int delay, int w) { bool succ = (out != oF && out != oN && out != oFM && out != oLF && out != oSL /* SleepAction's reason text is fixed */); int nm = (n.under_switch && succ) ? (n.has_b ? 3 : 2) : 1; for (int m = 0; m < nm; m++) a.push_back(Alt{Script{(uint8_t)out, (uint8_t)delay, (uint8_t)m}, w}); };
-  if (g_lane == 'X') { add(oS, 0, 0); add(oF, 1, 0); add(oSL, 0, 1); add(oFP, 0, 1); add(oFM, 0, 1); add(oLS, 1, 1); add(oLF, 1, 1); add(oB, 1, 1); return a; }
+  std::vector<Alt> a; auto add = [&](int out, int delay, int w) { bool succ = (out != oF && out != oN && out != oFM && out != oLF && out != oSL /* SleepAction's reason text is fixed */ && out != oFX); int nm = (n.under_switch && succ) ? (n.has_b ? 3 : 2) : 1; for (int m = 0; m < nm; m++) a.push_back(Alt{Script{(uint8_t)out, (uint8_t)delay, (uint8_t)m}, w}); };
+  if (g_lane == 'X') { add(oS, 0, 0); add(oF, 1, 0); add(oSL, 0, 1); add(oFP, 0, 1); add(oFM, 0, 1); add(oFX, 0, 1); add(oLS, 1, 1); add(oLF, 1, 1); if (g_stop_delayed) add(oSX, 1, 1); add(oLB, 1, 2); add(oBB, 1, 2); return a; }   // (LB/BB: alone among plain siblings)
   if (g_lane == 'N') { add(oS, 0, 0); add(oF, 1, 0); add(oB, 1, 1); if (n.under_loop) add(oFS, 0, 1); return a; }
   if (g_lane == 'T') { add(oS, 1, 0); add(oN, 0, 1); add(oF, 1, 1); add(oSL, 0, 1); add(oB, 1, 1); return a; }
   add(oS, 0, 0); add(oS, 1, 0); add(oF, 0, 0); add(oF, 1, 0); add(oN, 0, 1); add(oB, 1, 1);
@@ -217,28 +237,31 @@ struct Family {
   std::vector<SInfo> shapes; std::vector<Program> protos; std::vector<int> sw; int maxw;
   Family(int maxd, int maxc, int mw, int mind = 0) : maxw(mw) {
     shapes = gen_shapes(maxd, maxc, 4, mw, mind);
-    for (auto &x : shapes) { Program p; p.nleaves = 0; p.timeout = 0; p.alt = 0; p.to_node = -1; flatten(x.s, -1, 0, 0, p, false, false, false); p.sc.assign(p.nleaves, Script{oS, 0, 0}); protos.push_back(p); sw.push_back(shape_weight(x)); }
+    for (auto &x : shapes) { Program p; p.nleaves = 0; p.timeout = 0; p.alt = 0; flatten(x.s, -1, 0, 0, p, false, false, false); p.sc.assign(p.nleaves, Script{oS, 0, 0}); protos.push_back(p); sw.push_back(shape_weight(x)); }
     std::vector<size_t> ord(shapes.size()); for (size_t i = 0; i < ord.size(); i++) ord[i] = i;
     std::stable_sort(ord.begin(), ord.end(), [&](size_t a, size_t b) { if (sw[a] != sw[b]) return sw[a] < sw[b]; return false; });
     std::vector<Program> p2; std::vector<int> w2; for (size_t i : ord) { p2.push_back(protos[i]); w2.push_back(sw[i]); } protos.swap(p2); sw.swap(w2);
   }
-  static int to_weight() { return g_lane == 'T' ? 0 : 1; }     // lane T: with and without an initial timeout at no weight
-  static void set_text(Program &p) { p.text = prog_text(p, 0) + (p.timeout == 1 ? " timeout=100ms" : p.timeout == 2 ? " inner-timeout=100ms" : "") + " v" + std::to_string(p.alt); }
+  static int to_weight() { return g_lane == 'T' ? 0 : 1; }
+  static int to_variants() { return g_lane == 'N' ? 3 : 1; }     // lane T: with and without an initial timeout at no weight
+  static void set_text(Program &p) { p.text = prog_text(p, 0) + (p.timeout == 1 ? " timeout=100ms" : p.timeout == 2 ? " inner-timeout=100ms" : p.timeout == 3 ? " root+inner-timeout=100ms" : p.timeout == 4 ? " leaf-timeout=100ms" : "") + " v" + std::to_string(p.alt); }
   static bool wanted(const Program &p) {   // lane X repeats no program of lane A: at least one library / late leaf
     if (g_lane != 'X') return true; for (auto &sc : p.sc) if (sc.out >= oSL) return true; return false; }   // (B1 only next to one of them)
   long total() {    // number of programs of the family (same loops as each(), counted by convolution of the leaf alphabets' weight histograms)
-    long n = 0; if (g_lane == 'X') { each([&](Program &) { n++; return true; }); return n; }
+    long n = 0; if (g_lane == 'X' || g_lane == 'N') { each([&](Program &) { n++; return true; }); return n; }
     for (size_t si = 0; si < protos.size(); si++) { std::vector<long> h(maxw + 1, 0); h[0] = 1;
       for (auto &nd : protos[si].n) if (nd.k == LEAF) { std::vector<long> a(4, 0); for (auto &al : alphabet(nd)) a[al.w]++; std::vector<long> h2(maxw + 1, 0); for (int i = 0; i <= maxw; i++) for (int j = 0; j < 4 && i + j <= maxw; j++) h2[i + j] += h[i] * a[j]; h.swap(h2); }
-      for (int W = 0; W <= maxw; W++) for (int to = 0; to <= 1; to++) { int rest = W - to * to_weight() - sw[si]; if (rest >= 0) n += h[rest]; } }
+      for (int W = 0; W <= maxw; W++) for (int to = 0; to <= to_variants(); to++) { int rest = W - (to ? 1 : 0) * to_weight() - sw[si]; if (rest >= 0) n += h[rest]; } }
     return n; }
   // calls f(program) for every program in canonical order (program.text is NOT set: call set_text); f returns false to stop
   template <class F> void each(F f) {
     long index = 0; bool go = true;
-    for (int W = 0; W <= maxw && go; W++) for (int to = 0; to <= 1 && go; to++) for (size_t si = 0; si < protos.size() && go; si++) {
-      int rest = W - to * to_weight() - sw[si]; if (rest < 0) continue;
-      Program p = protos[si]; p.timeout = to ? (g_lane == 'N' ? 2 : 1) : 0; p.weight = W;
-      p.to_node = -1; if (p.timeout == 1) p.to_node = 0; else if (p.timeout == 2) for (size_t i = 1; i < p.n.size(); i++) if (p.n[i].k != LEAF) { p.to_node = (int)i; break; }
+    for (int W = 0; W <= maxw && go; W++) for (int to = 0; to <= to_variants() && go; to++) for (size_t si = 0; si < protos.size() && go; si++) {
+      int rest = W - (to ? 1 : 0) * to_weight() - sw[si]; if (rest < 0) continue;
+      Program p = protos[si]; p.timeout = to ? (g_lane == 'N' ? to + 1 : 1) : 0; p.weight = W; p.to_nodes.clear();
+      int inner = -1, fleaf = -1; for (size_t i = 1; i < p.n.size(); i++) { if (p.n[i].k != LEAF && inner < 0) inner = (int)i; if (p.n[i].k == LEAF && fleaf < 0) fleaf = (int)i; }
+      if (p.timeout == 1 || p.timeout == 3) p.to_nodes.push_back(0); if ((p.timeout == 2 || p.timeout == 3) && inner > 0) p.to_nodes.push_back(inner);
+      if (p.timeout == 4) { if (fleaf < 0) continue; p.to_nodes.push_back(fleaf); }
       std::vector<std::vector<Alt>> alts; for (auto &n : p.n) if (n.k == LEAF) alts.push_back(alphabet(n));
       std::function<void(int, int)> rec = [&](int li, int left) {
         if (!go) return;
@@ -257,7 +280,8 @@ struct ProbeLeaf : Action {
   bool isReady() const override { return true; }
   void onStart() override; void onResume() override; void onStop() override; void onReset() override; void onFinal() override;
   void onFinished(bool ok, const Reason &r, const Trace &t) override;    // (also reached when the leaf's own timeout finishes it)
-  bool late() const { return sc.out == oLS || sc.out == oLF; }
+  int nblocks = 0;
+  bool late() const { return sc.out == oLS || sc.out == oLF || sc.out == oLB; }
   void arm(int d) { if (d == 0) fire(); else remaining = d; }
   // a late leaf's completion is outside the action's control: it arrives also when the leaf has been paused or stopped meanwhile (not after a reset:
   // the base class accepts finish() on an idle action, a leaf that completes an action it was told to forget is outside the property)
@@ -312,13 +336,15 @@ struct World {
   std::vector<int> bcall, bdeliv, bgot;   // per run of node i: block() calls accepted on a probe leaf | block notifications delivered from i | block notifications received from children
   bool user_paused = false;                // model: set by an accepted `pause` op, cleared by resume / stop / reset: while set nothing in the tree may start or complete
   bool destroyed = false;
-  bool restart_armed = (g_lane == 'R');   // lane R: the user's finish callback re-uses the tree: reset(); start(); (once) - a control call made from inside a notification
+  // lane R: the user's finish callback acts on the tree from inside the notification (once): alt bit4 clear -> re-use it: reset(); start();  alt bit4 set -> delete it
+  // (what ActionExecutor does with a finished action); afterwards the loop runs on: nothing of the tree may arrive, no timer may be left, ASan watches
+  bool restart_armed = false, delete_armed = false, gone = false;
   std::string trace, viol; bool quiet_trace = false;
   std::string end_status;
 
-  explicit World(const Program &p) : P(p), N((int)p.n.size()) {}
+  explicit World(const Program &p) : P(p), N((int)p.n.size()) { if (g_lane == 'R') { if (p.alt & 16) delete_armed = true; else restart_armed = true; } }
   // Whitebox classification only (the verdict always comes from an oracle): SerialAssembleAction::onResume() hands a held-back child result to the
-  // loop with runNext() and keeps no id; such a task that was queued before a reset and runs after it is the common cause of many different symptoms.
+  // loop with runNext(); such a task that was queued before a reset and runs after it is the common cause of many different symptoms.
   std::set<event::Loop::RunId> stale_ids; bool stale_replay_ran = false;
   void V(const std::string &sig, const std::string &detail) { if (!viol.empty()) return;
     if (stale_replay_ran && sig.compare(0, 7, "harness") != 0) viol = "held-child-finish-replayed-after-reset [observed as " + sig + "] " + detail; else viol = sig + " " + detail; }
@@ -334,28 +360,52 @@ struct World {
     switch (n.k) {
       case LEAF: { const Script sc = P.sc[n.leafno];
         if (sc.out == oSL) { a = (alt & 1) ? tap(new LeafTap<SleepAction>(L, SleepAction::Generator([] { return std::chrono::milliseconds(SLEEP_MS); })), i) : tap(new LeafTap<SleepAction>(L, std::chrono::milliseconds(SLEEP_MS)), i); }
-        else if (sc.out == oFP || sc.out == oFM) { bool ok = sc.out == oFP; std::string msg = kMsg[sc.msg]; unsigned ov = (alt / 2 + (unsigned)n.leafno) % 4; if (sc.msg && (ov == 0 || ov == 2)) ov++;   // only the overloads taking a Reason can name a Switch case
-          if (ov == 0) a = tap(new LeafTap<FunctionAction>(L, FunctionAction::Func([ok] { return ok; })), i);
-          else if (ov == 1) a = tap(new LeafTap<FunctionAction>(L, FunctionAction::FuncWithReason([ok, msg](Action::Reason &r) { r.message = msg; return ok; })), i);
-          else if (ov == 2) a = tap(new LeafTap<FunctionAction>(L, FunctionAction::FuncWithVars([ok](util::Variables &) { return ok; })), i);
-          else a = tap(new LeafTap<FunctionAction>(L, FunctionAction::FuncWithReasonVars([ok, msg](Action::Reason &r, util::Variables &) { r.message = msg; return ok; })), i); }
+        else if (sc.out == oFP || sc.out == oFM || sc.out == oFX) { bool ok = sc.out != oFM, stopper = sc.out == oFX; std::string msg = kMsg[sc.msg]; unsigned ov = (alt / 2 + (unsigned)n.leafno) % 4; if (sc.msg && (ov == 0 || ov == 2)) ov++;   // only the overloads taking a Reason can name a Switch case
+          World *W = this; bool late_set = (alt & 4) != 0;   // alt bit2: FunctionAction(loop), the callable is handed over by setFunc()
+          auto *f = late_set ? tap(new LeafTap<FunctionAction>(L), i) : nullptr;
+          FunctionAction::Func f0([ok, stopper, W] { if (stopper) W->stopFromInside(); return ok; });
+          FunctionAction::FuncWithReason f1([ok, msg, stopper, W](Action::Reason &r) { if (stopper) W->stopFromInside(); r.message = msg; return ok; });
+          FunctionAction::FuncWithVars f2([ok, stopper, W](util::Variables &) { if (stopper) W->stopFromInside(); return ok; });
+          FunctionAction::FuncWithReasonVars f3([ok, msg, stopper, W](Action::Reason &r, util::Variables &) { if (stopper) W->stopFromInside(); r.message = msg; return ok; });
+          if (late_set) { if (ov == 0) f->setFunc(std::move(f0)); else if (ov == 1) f->setFunc(std::move(f1)); else if (ov == 2) f->setFunc(std::move(f2)); else f->setFunc(std::move(f3)); a = f; }
+          else if (ov == 0) a = tap(new LeafTap<FunctionAction>(L, std::move(f0)), i);
+          else if (ov == 1) a = tap(new LeafTap<FunctionAction>(L, std::move(f1)), i);
+          else if (ov == 2) a = tap(new LeafTap<FunctionAction>(L, std::move(f2)), i);
+          else a = tap(new LeafTap<FunctionAction>(L, std::move(f3)), i); }
         else { auto *l = new ProbeLeaf(L, this, i, sc); leaf[i] = l; a = l; } } break;
       case SEQ: { Tap<SequenceAction> *s; if (alt & 1) { s = tap(new Tap<SequenceAction>(L), i); s->setMode((SequenceAction::Mode)n.mode); } else s = tap(new Tap<SequenceAction>(L, (SequenceAction::Mode)n.mode), i);
         a = s; for (int c : n.ch) need(s->addChild(mk(c)) >= 0); } break;
-      case PAR: { auto *s = tap(new Tap<ParallelAction>(L, (ParallelAction::Mode)n.mode), i); a = s; for (int c : n.ch) need(s->addChild(mk(c)) >= 0); } break;
+      case PAR: { Tap<ParallelAction> *s; if (alt & 4) { s = tap(new Tap<ParallelAction>(L), i); s->setMode((ParallelAction::Mode)n.mode); } else s = tap(new Tap<ParallelAction>(L, (ParallelAction::Mode)n.mode), i); a = s; for (int c : n.ch) need(s->addChild(mk(c)) >= 0); } break;
       case IFELSE: { auto *s = tap(new Tap<IfElseAction>(L), i); a = s; for (size_t c = 0; c < n.ch.size(); c++) { std::string ro = role_of(n.k, n.var, (int)c); if (alt & 1) { if (ro == "then") ro = "succ"; else if (ro == "else") ro = "fail"; } need(s->setChildAs(mk(n.ch[c]), ro)); } } break;
       case IFTHEN: { auto *s = tap(new Tap<IfThenAction>(L), i); a = s; for (size_t c = 0; c < n.ch.size(); c++) need(s->addChildAs(mk(n.ch[c]), role_of(n.k, n.var, (int)c)) >= 0); } break;
       case SWITCH: { auto *s = tap(new Tap<SwitchAction>(L), i); a = s; for (size_t c = 0; c < n.ch.size(); c++) need(s->setChildAs(mk(n.ch[c]), role_of(n.k, n.var, (int)c))); } break;
-      case LOOP: { if (alt & 1) a = tap(new Tap<LoopAction>(L, mk(n.ch[0]), (LoopAction::Mode)n.mode), i); else { auto *s = tap(new Tap<LoopAction>(L, (LoopAction::Mode)n.mode), i); a = s; need(s->setChild(mk(n.ch[0]))); } } break;
+      case LOOP: { if (alt & 1) { auto *s = (alt & 4) ? tap(new Tap<LoopAction>(L, mk(n.ch[0])), i) : tap(new Tap<LoopAction>(L, mk(n.ch[0]), (LoopAction::Mode)n.mode), i); if (alt & 4) s->setMode((LoopAction::Mode)n.mode); a = s; }
+        else { auto *s = (alt & 4) ? tap(new Tap<LoopAction>(L), i) : tap(new Tap<LoopAction>(L, (LoopAction::Mode)n.mode), i); if (alt & 4) s->setMode((LoopAction::Mode)n.mode); a = s; need(s->setChild(mk(n.ch[0]))); } } break;
       case LOOPIF: { auto *s = tap(new Tap<LoopIfAction>(L), i); a = s; need(s->setChildAs(mk(n.ch[0]), "if")); need(s->setChildAs(mk(n.ch[1]), "exec")); if (alt % 3 == 1) s->setFinishResult(false); else if (alt % 3 == 2) s->setFinishResult(true); } break;
-      case REPEAT: { if (alt % 3 == 1) a = tap(new Tap<RepeatAction>(L, mk(n.ch[0]), (size_t)n.var, (RepeatAction::Mode)n.mode), i);
+      case REPEAT: { if (n.var == 0) { auto *s = tap(new Tap<RepeatAction>(L), i); a = s; s->setMode((RepeatAction::Mode)n.mode); need(s->setChild(mk(n.ch[0]))); }   // never told how many times
+        else if (alt % 3 == 1) a = tap(new Tap<RepeatAction>(L, mk(n.ch[0]), (size_t)n.var, (RepeatAction::Mode)n.mode), i);
         else if (alt % 3 == 2) { auto *s = tap(new Tap<RepeatAction>(L), i); a = s; s->setTimes((size_t)n.var); s->setMode((RepeatAction::Mode)n.mode); need(s->setChild(mk(n.ch[0]))); }
         else { auto *s = tap(new Tap<RepeatAction>(L, (size_t)n.var, (RepeatAction::Mode)n.mode), i); a = s; need(s->setChild(mk(n.ch[0]))); } } break;
-      case WRAP: { if (alt & 1) a = tap(new Tap<WrapperAction>(L, mk(n.ch[0]), (WrapperAction::Mode)n.mode), i); else { auto *s = tap(new Tap<WrapperAction>(L, (WrapperAction::Mode)n.mode), i); a = s; need(s->setChild(mk(n.ch[0]))); } } break;
+      case WRAP: { if (alt & 1) { auto *s = (alt & 4) ? tap(new Tap<WrapperAction>(L, mk(n.ch[0])), i) : tap(new Tap<WrapperAction>(L, mk(n.ch[0]), (WrapperAction::Mode)n.mode), i); if (alt & 4) s->setMode((WrapperAction::Mode)n.mode); a = s; }
+        else { auto *s = (alt & 4) ? tap(new Tap<WrapperAction>(L), i) : tap(new Tap<WrapperAction>(L, (WrapperAction::Mode)n.mode), i); if (alt & 4) s->setMode((WrapperAction::Mode)n.mode); a = s; need(s->setChild(mk(n.ch[0]))); } } break;
       case COMP: { auto *s = tap(new Tap<CompositeAction>(L, "Composite"), i); a = s; need(s->setChild(mk(n.ch[0]))); } break;
     }
     act[i] = a; return a;
   }
+  // current configuration of the root (changed by reconfigure() between runs); every other node keeps the program's
+  int root_mode = 0, root_times = 0;
+  int modeOf(int i) const { return i == 0 ? root_mode : P.n[i].mode; }
+  int timesOf(int i) const { return i == 0 ? root_times : P.n[i].var; }
+  static int nmodes(int k) { return k == SEQ || k == PAR || k == LOOP || k == REPEAT ? 3 : k == WRAP ? 4 : 0; }
+  void configureRoot(int mode, int times) {   // public setters on an idle tree
+    int k = P.n[0].k; if (mode != root_mode) { root_mode = mode;
+      if (k == SEQ) static_cast<SequenceAction *>(root)->setMode((SequenceAction::Mode)mode); else if (k == PAR) static_cast<ParallelAction *>(root)->setMode((ParallelAction::Mode)mode);
+      else if (k == LOOP) static_cast<LoopAction *>(root)->setMode((LoopAction::Mode)mode); else if (k == REPEAT) static_cast<RepeatAction *>(root)->setMode((RepeatAction::Mode)mode);
+      else if (k == WRAP) static_cast<WrapperAction *>(root)->setMode((WrapperAction::Mode)mode); }
+    if (k == REPEAT && times != root_times) { root_times = times; static_cast<RepeatAction *>(root)->setTimes((size_t)times); } }
+  void reconfigure() { int k = P.n[0].k; if (!(P.alt & 8) || !nmodes(k)) return; int m = (root_mode + 1) % nmodes(k), t = (k == REPEAT && root_times) ? 3 - root_times : root_times; tr("RECONF%d", m); configureRoot(m, t); }
+  // a control call made from inside a start: a FunctionAction's function (or a probe leaf's onStart) stops the whole tree
+  void stopFromInside() { tr("STOP!"); user_paused = false; if (root->isUnderway()) bump(0, 's'); root->stop(); }
   bool isSleep(int i) const { return P.n[i].k == LEAF && P.sc[P.n[i].leafno].out == oSL; }
   int loopIfResult() const { return P.alt % 3 == 1 ? R_FALSE : R_TRUE; }
   void install(int i) {   // observer callbacks carrying the node's current epoch
@@ -364,15 +414,15 @@ struct World {
     act[i]->setBlockCallback([this, i, tag](const Action::Reason &r, const Action::Trace &t) { blockDelivered(i, tag, r, t); });
   }
   void bump(int i, char why) { ep[i]++; epwhy[i] = why; install(i); }
-  void build(int root_timeout = -1) {    // root_timeout: -1 = as the program says, 0/1 = without/with a timeout on the root (fresh twin of a tree whose timeout was changed by an op)
+  void build(int root_timeout = -1, int mode = -1, int times = -1) {    // root_timeout: -1 = as the program says, 0/1 = without/with a timeout on the root (fresh twin of a tree whose timeout was changed by an op)
     vnow = 1000000; Action::_id_alloc_counter_ = 0;
     act.assign(N, nullptr); leaf.assign(N, nullptr); of.resize(N); ob.resize(N); ep.assign(N, 0); finals.assign(N, 0); fdeliv.assign(N, 0); epwhy.assign(N, ' '); by_timeout.assign(N, 0); mon.assign(N, Mon());
     live.assign(N, 0); to_conf.assign(N, 0); t_arm.assign(N, 0); bcall.assign(N, 0); bdeliv.assign(N, 0); bgot.assign(N, 0);
-    root = mk(0);
+    root_mode = P.n[0].mode; root_times = P.n[0].var; root = mk(0); if (mode >= 0) configureRoot(mode, times);
     for (int i = 0; i < N; i++) { if (i > 0) { of[i] = act[i]->finish_cb_; ob[i] = act[i]->block_cb_; } install(i);
       if (P.n[i].k != LEAF) static_cast<AssembleAction *>(act[i])->setFinalCallback([this, i] { finalHook(i); }); }
-    if (P.to_node > 0) { act[P.to_node]->setTimeout(std::chrono::milliseconds(T_MS)); to_conf[P.to_node] = 1; }
-    if (root_timeout < 0 ? P.to_node == 0 : root_timeout == 1) { root->setTimeout(std::chrono::milliseconds(T_MS)); to_conf[0] = 1; }
+    for (int t : P.to_nodes) if (t > 0) { act[t]->setTimeout(std::chrono::milliseconds(T_MS)); to_conf[t] = 1; }
+    if (root_timeout < 0 ? P.toOn(0) : root_timeout == 1) { root->setTimeout(std::chrono::milliseconds(T_MS)); to_conf[0] = 1; }
     if (!built_ok) V("composite-refuses-a-documented-child-or-role", "");
     else if (!root->isReady()) V("harness-tree-not-ready", "");
   }
@@ -391,29 +441,30 @@ struct World {
   // ---------------------------------------------------------------- monitors (result oracle)
   std::string exp_str(const Mon &m) { char b[64]; const char *t[] = {"wait-for-child", "start-child", "start-all-children", "finish"}; snprintf(b, sizeof b, "%s(child=%d,result=%s)", t[m.exp], m.ec, m.er == R_ANY ? "any" : m.er ? "true" : "false"); return b; }
   void nodeStart(int i) { finals[i] = 0; fdeliv[i] = 0; by_timeout[i] = 0; t_arm[i] = vnow; bcall[i] = bdeliv[i] = bgot[i] = 0; Mon m; m.started = true; const Node &n = P.n[i];
-    if (n.k == PAR) { m.exp = E_ALL; m.k = 0; } else if (n.k != LEAF) { m.exp = E_START; m.ec = 0; } if (n.k == REPEAT) m.remain = n.var - 1; mon[i] = m; }
+    if (n.k != LEAF && n.ch.empty()) { m.exp = E_FIN; m.er = R_TRUE; }   // no children: Sequence's loop body never runs (`return true`), Parallel has nothing to wait for (its result is always true)
+    else if (n.k == PAR) { m.exp = E_ALL; m.k = 0; } else if (n.k != LEAF) { m.exp = E_START; m.ec = 0; } if (n.k == REPEAT) m.remain = timesOf(i) ? timesOf(i) - 1 : (1 << 20); mon[i] = m; }
   void monChildStart(int i, int pos) { Mon &m = mon[i];
     if (m.exp == E_START && m.ec == pos) { m.exp = E_NONE; m.cur = pos; return; }
     if (m.exp == E_ALL && m.k == pos) { if (++m.k == (int)P.n[i].ch.size()) m.exp = E_NONE; return; }
     V(std::string(kKindLc[P.n[i].k]) + "-starts-child-out-of-documented-order", "node " + std::to_string(i) + " started child#" + std::to_string(pos) + " while the documented next step is " + exp_str(m) + " state=" + sname(act[i]->state())); }
   void monChildFinish(int i, int pos, bool ok, const std::string &msg, bool paused) {
-    Mon &m = mon[i]; const Node &n = P.n[i]; int nch = (int)n.ch.size();
+    Mon &m = mon[i]; const Node &n = P.n[i]; int nch = (int)n.ch.size(); const int mode = modeOf(i);
     auto fin = [&](int r) { m.exp = E_FIN; m.er = r; }; auto start = [&](int c) { m.exp = E_START; m.ec = c; };
     if (n.k == PAR) { if (m.rec[pos]) return; m.rec[pos] = ok ? 1 : 2; if (paused) m.dwp = true; if (m.exp == E_FIN) return;
-      bool trig = (n.mode == 2 && ok) || (n.mode == 1 && !ok), all = true; for (int c = 0; c < nch; c++) if (!m.rec[c]) all = false;
+      bool trig = (mode == 2 && ok) || (mode == 1 && !ok), all = true; for (int c = 0; c < nch; c++) if (!m.rec[c]) all = false;
       if (trig || all) fin(R_TRUE); return; }
     if (pos != m.cur || m.exp != E_NONE) return;    // not the child this node waits for
     switch (n.k) {
-      case SEQ: if ((n.mode == 2 && ok) || (n.mode == 1 && !ok) || pos + 1 == nch) fin(ok); else start(pos + 1); break;
+      case SEQ: if ((mode == 2 && ok) || (mode == 1 && !ok) || pos + 1 == nch) fin(ok); else start(pos + 1); break;
       case IFELSE: if (pos == 0) { int b = ok ? (n.var == 2 ? -1 : 1) : (n.var == 1 ? -1 : (n.var == 2 ? 1 : 2)); if (b < 0) fin(R_TRUE); else start(b); } else fin(ok); break;
       case IFTHEN: if (pos % 2 == 0) { if (ok) start(pos + 1); else if (pos + 2 < nch) start(pos + 2); else fin(R_FALSE); } else fin(ok); break;
       case SWITCH: if (pos == 0) { if (!ok) { fin(R_FALSE); break; } int tgt = -1, dflt = -1;
           for (int c = 1; c < nch; c++) { std::string ro = role_of(n.k, n.var, c); if (ro == "default") dflt = c; else if (ro == msg) tgt = c; }
           if (tgt < 0) tgt = dflt; if (tgt < 0) fin(R_FALSE); else start(tgt); } else fin(ok); break;
-      case LOOP: if ((n.mode == 2 && ok) || (n.mode == 1 && !ok)) fin(R_ANY); else start(0); break;
+      case LOOP: if ((mode == 2 && ok) || (mode == 1 && !ok)) fin(R_ANY); else start(0); break;
       case LOOPIF: if (pos == 0) { if (ok) start(1); else fin(loopIfResult()); } else start(0); break;
-      case REPEAT: if ((n.mode == 2 && ok) || (n.mode == 1 && !ok)) fin(ok); else if (m.remain > 0) { m.remain--; start(0); } else fin(n.mode == 0 ? R_TRUE : R_ANY); break;
-      case WRAP: fin(n.mode == 0 ? ok : n.mode == 1 ? !ok : n.mode == 2 ? R_TRUE : R_FALSE); break;
+      case REPEAT: if ((mode == 2 && ok) || (mode == 1 && !ok)) fin(ok); else if (m.remain > 0) { m.remain--; start(0); } else fin(mode == 0 ? R_TRUE : R_ANY); break;
+      case WRAP: fin(mode == 0 ? ok : mode == 1 ? !ok : mode == 2 ? R_TRUE : R_FALSE); break;
       case COMP: fin(ok); break;
     }
   }
@@ -433,7 +484,7 @@ struct World {
   void hookFinished(int i, bool ok) { live[i] = 0; if (P.n[i].k != LEAF) return; tr(ok ? "f%d+" : "f%d-", i);
     if (user_paused) V("leaf-completes-while-the-tree-is-paused", "library leaf " + std::to_string(i) + " finished after pause() and before resume()/stop()/reset()");
     int o = P.sc[P.n[i].leafno].out;    // library leaves: FunctionAction finishes with what its function returned, SleepAction with success (headers + FunctionAction/SleepAction tests)
-    if ((o == oFP || o == oFM) && ok != (o == oFP)) V("function-leaf-result-differs-from-what-the-function-returned", "leaf " + std::to_string(i) + " function returned " + (o == oFP ? "true" : "false"));
+    if ((o == oFP || o == oFM || o == oFX) && ok != (o != oFM)) V("function-leaf-result-differs-from-what-the-function-returned", "leaf " + std::to_string(i) + " function returned " + (o != oFM ? "true" : "false"));
     if (o == oSL && !ok) V("sleep-leaf-finished-with-failure", "leaf " + std::to_string(i)); }
   void finishDelivered(int i, int tag, bool ok, const Action::Reason &r, const Action::Trace &t) {
     if (destroyed) { V("notification-delivered-after-destroy", "finish notification of node " + std::to_string(i) + " runs after the tree was destroyed"); return; }
@@ -442,7 +493,8 @@ struct World {
     if (tag != ep[i]) V(std::string("stale-finish-notification-after-") + (epwhy[i] == 's' ? "stop" : "reset") + where, "node " + std::to_string(i) + " delivered the finish notification of an earlier run");
     if (++fdeliv[i] > 1) V(i == 0 ? "root-finish-callback-more-than-once-per-run" : "finish-notification-delivered-twice-per-run", "node " + std::to_string(i));
     if (i == 0) { if (root->state() == St::kFinished && ok != (root->result() == Action::Result::kSuccess)) V("root-finish-callback-disagrees-with-result", "");
-      if (restart_armed && viol.empty() && tag == ep[0]) { restart_armed = false; tr("RESTART"); resetRoot(); if (viol.empty()) root->start(); } }
+      if (restart_armed && viol.empty() && tag == ep[0]) { restart_armed = false; tr("RESTART"); resetRoot(); if (viol.empty()) root->start(); }
+      if (delete_armed && viol.empty() && tag == ep[0]) { delete_armed = false; tr("DELETE"); gone = destroyed = true; delete root; root = nullptr; return; } }
     else { int p = P.n[i].parent; St ps = act[p]->state(); if (underway(ps) && viol.empty()) monChildFinish(p, P.n[i].pos, ok, r.message, ps == St::kPause); if (of[i]) of[i](ok, r, t); }
     scan();
   }
@@ -466,7 +518,7 @@ struct World {
   }
   void descend(int i, std::vector<int> &out) { for (int c : P.n[i].ch) { out.push_back(c); descend(c, out); } }
   void scan() {
-    if (!viol.empty()) return;
+    if (!viol.empty() || gone) return;
     for (int i = 0; i < N; i++) { St s = act[i]->state();
       if (s == St::kFinished || s == St::kStoped) {
         if (finals[i] != 1) { V(std::string("final-hook-not-run-after-") + (s == St::kFinished ? "finish" : "stop"), "node " + std::to_string(i) + " finals=" + std::to_string(finals[i])); return; }
@@ -486,7 +538,7 @@ struct World {
         if (m.er != R_ANY && (act[i]->result() == Action::Result::kSuccess) != (m.er == R_TRUE)) { V(std::string(kKindLc[P.n[i].k]) + "-wrong-result", "node " + std::to_string(i) + " result=" + ToString(act[i]->result()) + " documented=" + (m.er ? "true" : "false")); return; } }
     }
   }
-  void snapshot() { if (quiet_trace) return; trace += '|'; for (int i = 0; i < N; i++) { trace += sc(act[i]->state()); trace += "usf"[(int)act[i]->result()]; } trace += ' '; }
+  void snapshot() { if (quiet_trace) return; if (gone) { trace += "|gone "; return; } trace += '|'; for (int i = 0; i < N; i++) { trace += sc(act[i]->state()); trace += "usf"[(int)act[i]->result()]; } trace += ' '; }
 
   // ---------------------------------------------------------------- operations
   // timers: every timer of the loop belongs to the tree (action timeouts, SleepAction)
@@ -496,36 +548,43 @@ struct World {
   static long long expiry(event::TimerEvent *t) {   // -1: no timer / not armed
     if (!t || !t->isEnabled()) return -1; auto *ti = static_cast<event::TimerEventImpl *>(t); auto *tm = g_cl->timer_cabinet_.at(ti->token_); return tm ? (long long)tm->expired : -2; }
   long long sleepExpiry() { long long m = -1; for (int i = 0; i < N; i++) if (isSleep(i)) { long long e = expiry(static_cast<SleepAction *>(act[i])->timer_); if (e >= 0 && (m < 0 || e < m)) m = e; } return m; }
+  void passGone() {   // the tree was deleted from inside its finish notification
+    if (!g_cl->timer_min_heap_.empty()) { V("timer-left-armed-after-destroy", "the tree deleted in its finish callback left " + std::to_string(g_cl->timer_min_heap_.size()) + " timer(s) armed on the loop"); scrub(); return; }
+    g_cl->handleNextFunc(); }
   void pass() {
-    g_loop->runNext([this] { for (int i = 0; i < N; i++) if (leaf[i]) leaf[i]->tick(); scan(); });   // leaf completions happen inside the loop, after the already queued notifications
+    if (gone) { passGone(); return; }
+    g_loop->runNext([this] { if (gone) return; for (int i = 0; i < N; i++) if (leaf[i]) leaf[i]->tick(); scan(); });   // leaf completions happen inside the loop, after the already queued notifications
     std::vector<char> before(N); for (int i = 0; i < N; i++) before[i] = (char)act[i]->state();
     g_cl->handleExpiredTimers();
     // a composite that finishes inside the timer phase can only have been finished by its own timeout (child notifications travel through the task queue).
     // The model is deliberately permissive about WHEN (pause/resume/block re-arm details are not documented): a timeout must be configured on that
     // node and at least the full span must have passed since the run started / the timeout was set; a withdrawn timeout must never fire.
-    for (int i = 0; i < N && viol.empty(); i++) if (P.n[i].k != LEAF && act[i]->state() == St::kFinished && before[i] != (char)St::kFinished) {
+    // (a probe leaf completes only from the task queue, so for it the same holds)
+    for (int i = 0; i < N && viol.empty(); i++) if ((P.n[i].k != LEAF || leaf[i]) && act[i]->state() == St::kFinished && before[i] != (char)St::kFinished) {
       if (to_conf[i] && vnow - t_arm[i] >= T_MS) { by_timeout[i] = 1; if (i == 0) tr("TIMEOUT"); else tr("TIMEOUT%d", i); }
       else V("timeout-fires-although-not-armed", "node " + std::to_string(i) + " was finished from a timer callback; timeout configured=" + std::to_string((int)to_conf[i]) + ", " + std::to_string(vnow - t_arm[i]) + " ms after its run started / the timeout was set"); }
     scan();
-    if (!stale_ids.empty()) for (auto &it : g_cl->run_next_func_queue_) if (stale_ids.count(it.id)) stale_replay_ran = true;
+    if (!stale_ids.empty()) for (auto &it : g_cl->run_next_func_queue_) if (stale_ids.count(VF_GET(id, it, (event::Loop::RunId)0))) stale_replay_ran = true;
     g_cl->handleNextFunc();
     scan();
   }
   void resetRoot() {
     user_paused = false; if (root->state() != St::kIdle) bump(0, 'r'); root->reset();
-    for (auto &it : g_cl->run_next_func_queue_) if (it.what.empty()) stale_ids.insert(it.id);
+    for (auto &it : g_cl->run_next_func_queue_) if (VF_GET(what, it, std::string("?")).empty()) stale_ids.insert(VF_GET(id, it, (event::Loop::RunId)0));
     for (int i = 0; i < N && viol.empty(); i++) if (act[i]->state() != St::kIdle || act[i]->result() != Action::Result::kUnsure) V("reset-leaves-node-not-idle", "node " + std::to_string(i) + " " + sname(act[i]->state()));
   }
-  enum { O_START, O_PAUSE, O_RESUME, O_STOP, O_RESET, O_PASS, O_ADV, O_SETTO, O_RSTTO };
+  enum { O_START, O_PAUSE, O_RESUME, O_STOP, O_RESET, O_PASS, O_ADV, O_SETTO, O_RSTTO, O_ADV7 };
   void op(int o) {
-    static const char *n[] = {"start", "pause", "resume", "stop", "reset", "pass", "advance", "set-timeout", "reset-timeout"};
+    static const char *n[] = {"start", "pause", "resume", "stop", "reset", "pass", "advance", "set-timeout", "reset-timeout", "advance+7"};
     trace += n[o]; trace += ": ";
+    if (gone && o != O_PASS) { snapshot(); return; }    // nothing left to call
     switch (o) {
       case O_START: root->start(); break;
       case O_PAUSE: { bool was_running = root->state() == St::kRunning; bool acc = root->pause(); if (was_running && acc) user_paused = true; } break;
       case O_RESUME: user_paused = false; root->resume(); break;
       case O_STOP: user_paused = false; if (root->isUnderway()) bump(0, 's'); root->stop(); break;
-      case O_RESET: resetRoot(); break;
+      case O_RESET: resetRoot(); reconfigure(); break;
+      case O_ADV7: { long long m = heapMin(); if (m > vnow) vnow = m + 7; } break;   // the loop wakes up late: the clock has passed the earliest armed timer by 7 ms
       case O_PASS: pass(); break;
       case O_ADV: { long long m = heapMin(); if (m > vnow) vnow = m; } break;    // to the instant of the earliest armed timer (root/inner timeout, SleepAction)
       case O_SETTO: root->setTimeout(std::chrono::milliseconds(T_MS)); to_conf[0] = 1; t_arm[0] = vnow; break;
@@ -534,7 +593,7 @@ struct World {
     scan(); snapshot();
   }
   bool queueEmpty() { return g_cl->run_next_func_queue_.empty(); }
-  bool quiescent() { if (!queueEmpty() || timerDue()) return false; for (int i = 0; i < N; i++) if (leaf[i] && leaf[i]->pending()) return false; return true; }
+  bool quiescent() { if (gone) return queueEmpty(); if (!queueEmpty() || timerDue()) return false; for (int i = 0; i < N; i++) if (leaf[i] && leaf[i]->pending()) return false; return true; }
 
   // calls the base class answers without doing anything in the current state must leave everything unchanged
   void probes() {
@@ -550,7 +609,7 @@ struct World {
   }
 
   // drain: can the tree complete? then the root must finish (exactly one callback)
-  bool anyLoopUnderway() { for (int i = 0; i < N; i++) if ((P.n[i].k == LOOP || P.n[i].k == LOOPIF) && act[i]->isUnderway()) return true; return false; }
+  bool anyLoopUnderway() { for (int i = 0; i < N; i++) if ((P.n[i].k == LOOP || P.n[i].k == LOOPIF || (P.n[i].k == REPEAT && timesOf(i) == 0)) && act[i]->isUnderway()) return true; return false; }
   void explain(int i) {   // node i is under way and nothing is pending anywhere: it must be waiting for a `never` leaf
     if (!viol.empty()) return; St s = act[i]->state(); const Node &n = P.n[i]; std::string ni = "node " + std::to_string(i) + "(" + kKind[n.k] + ")";
     if (s == St::kPause) { V("descendant-left-paused-while-root-running", ni); return; }
@@ -567,16 +626,19 @@ struct World {
       if (!viol.empty()) return; }
   }
   void epilogue() {
+    if (gone) { trace += "after-delete: "; for (int j = 0; j < 3 && viol.empty(); j++) passGone(); end_status = "deleted-in-finish-callback"; return; }
     trace += "drain: "; const int K = 48; bool stuck = false; int k = 0;
     for (; k < K && viol.empty(); k++) {
       if (!root->isUnderway()) break;
       if (root->state() == St::kPause) { trace += "resume "; user_paused = false; root->resume(); scan(); if (!viol.empty() || !root->isUnderway()) break; }
+      if (gone) { epilogue(); return; }
       if (quiescent()) { long long se = sleepExpiry(); if (se < 0) { stuck = true; break; } if (se > vnow) vnow = se; }   // only a sleeping SleepAction is waited for (a pending timeout is not: `never` leaves must stay visible)
-      pass();          // (no per-pass snapshot in the drain: a pass that runs a deferred task without any observable effect must not count as a difference)
+      pass(); if (gone) { epilogue(); return; }         // (no per-pass snapshot in the drain: a pass that runs a deferred task without any observable effect must not count as a difference)
     }
     if (!viol.empty()) return;
     if (!root->isUnderway()) {
-      for (int j = 0; j < 8 && viol.empty() && !quiescent(); j++) pass();    // flush what is still queued (root finish callback, stale notifications)
+      for (int j = 0; j < 8 && viol.empty() && !quiescent() && !gone; j++) pass();    // flush
+      if (gone) { epilogue(); return; }
       snapshot();
       if (!viol.empty()) return;
       if (root->state() == St::kFinished && fdeliv[0] != 1) V("root-finish-callback-not-delivered-exactly-once", "delivered " + std::to_string(fdeliv[0]) + " times, root finished");
@@ -587,25 +649,26 @@ struct World {
 
   // ---------------------------------------------------------------- canonical state
   std::string canon_impl() {
-    std::string c; char b[96];
+    std::string c; char b[96]; typedef std::chrono::steady_clock::time_point TP; typedef std::chrono::milliseconds MS;
     for (int i = 0; i < N; i++) { const Node &n = P.n[i]; Action *a = act[i]; c += sc(a->state()); c += "usf"[(int)a->result()];
       if (n.k == LEAF && !leaf[i]) { if (isSleep(i)) { auto *sl = static_cast<SleepAction *>(a); long long e = expiry(sl->timer_); snprintf(b, sizeof b, "t%lld", e < 0 ? e : e - vnow); c += b;
-          if (a->isUnderway()) { long long ft = std::chrono::duration_cast<std::chrono::milliseconds>(sl->finish_time_.time_since_epoch()).count() - vnow; snprintf(b, sizeof b, "f%lld", std::max(-999LL, std::min(999LL, ft))); c += b; }
-          if (a->state() == St::kPause) { snprintf(b, sizeof b, "r%lld", (long long)sl->remain_time_span_.count()); c += b; } } }
-      else if (n.k == LEAF) { ProbeLeaf *l = leaf[i]; bool flip = l->sc.out == oSF || l->sc.out == oFS; snprintf(b, sizeof b, "%d%d%d%d%d", l->remaining, l->what, (int)l->blocked, (int)l->active, flip ? std::min(l->runs, 1) : 0); c += b; }
-      else if (n.k == PAR) { for (auto &kv : static_cast<ParallelAction *>(a)->finished_children_) { snprintf(b, sizeof b, "%d%c", kv.first, kv.second ? '+' : '-'); c += b; } }
-      else { auto *s = static_cast<SerialAssembleAction *>(a); int cur = -1; for (size_t k = 0; k < n.ch.size(); k++) if (act[n.ch[k]] == s->curr_action_) cur = (int)k; if (s->curr_action_ && cur < 0) cur = 9;
-        long extra = n.k == SEQ ? (long)static_cast<SequenceAction *>(a)->index_ : n.k == IFTHEN ? (long)static_cast<IfThenAction *>(a)->index_ : n.k == REPEAT ? (long)std::min<size_t>(static_cast<RepeatAction *>(a)->remain_times_, 9) : 0;
-        snprintf(b, sizeof b, "c%d%c%ld", cur, s->child_finish_func_ ? 'h' : '.', extra); c += b; }
-      if (a->timer_ev_) { long long e = expiry(a->timer_ev_); snprintf(b, sizeof b, "T%lld", e < 0 ? e : e - vnow); c += b; }
+          if (a->isUnderway()) { long long ft = std::chrono::duration_cast<MS>(VF_GET(finish_time_, *sl, TP()).time_since_epoch()).count() - vnow; snprintf(b, sizeof b, "f%lld", std::max(-999LL, std::min(999LL, ft))); c += b; }
+          if (a->state() == St::kPause) { snprintf(b, sizeof b, "r%lld", (long long)VF_GET(remain_time_span_, *sl, MS(0)).count()); c += b; } } }
+      else if (n.k == LEAF) { ProbeLeaf *l = leaf[i]; bool flip = l->sc.out == oSF || l->sc.out == oFS; snprintf(b, sizeof b, "%d%d%d%d%d%d", l->remaining, l->what, (int)l->blocked, (int)l->active, flip ? std::min(l->runs, 1) : 0, l->nblocks); c += b; }
+      else if (n.k == PAR) { auto fc = VF_GET(finished_children_, *static_cast<ParallelAction *>(a), (std::map<int, bool>())); for (auto &kv : fc) { snprintf(b, sizeof b, "%d%c", kv.first, kv.second ? '+' : '-'); c += b; } }
+      else { auto *s = static_cast<SerialAssembleAction *>(a); Action *ca = VF_GET(curr_action_, *s, (Action *)nullptr); int cur = -1; for (size_t k = 0; k < n.ch.size(); k++) if (act[n.ch[k]] == ca) cur = (int)k; if (ca && cur < 0) cur = 9;
+        long extra = n.k == SEQ ? VF_GET(index_, *static_cast<SequenceAction *>(a), 0L) : n.k == IFTHEN ? VF_GET(index_, *static_cast<IfThenAction *>(a), 0L) : n.k == REPEAT ? (long)std::min<size_t>(VF_GET(remain_times_, *static_cast<RepeatAction *>(a), (size_t)0), 9) : 0;
+        snprintf(b, sizeof b, "c%d%c%ld", cur, VF_GET(child_finish_func_, *s, false) ? 'h' : '.', extra); c += b; }
+      if (event::TimerEvent *te = VF_GET(timer_ev_, *a, (event::TimerEvent *)nullptr)) { long long e = expiry(te); snprintf(b, sizeof b, "T%lld", e < 0 ? e : e - vnow); c += b; }
       c += ','; }
-    c += "Q:"; for (auto &it : g_cl->run_next_func_queue_) { c += it.what.empty() ? "anon" : it.what; c += ';'; }
+    c += "Q:"; for (auto &it : g_cl->run_next_func_queue_) { std::string wt = VF_GET(what, it, std::string("?")); c += wt.empty() ? "anon" : wt; c += ';'; }
     return c;
   }
   std::string canon() {
+    if (gone) { std::string c = "gone Q:"; for (auto &it : g_cl->run_next_func_queue_) { c += VF_GET(what, it, std::string("?")); c += ';'; } return c; }
     std::string c = canon_impl(); char b[96]; c += "#";
-    for (int i = 0; i < N; i++) { Mon &m = mon[i]; snprintf(b, sizeof b, "%d%d%d%d%d%d%d%d%d%d%d%d%d%d%d;", m.exp, m.ec + 1, m.er, m.cur + 1, m.remain, m.k, m.rec[0], m.rec[1], m.rec[2], m.rec[3], (int)m.dwp, (int)m.done, std::min(finals[i], 2), std::min(fdeliv[i], 2), (int)by_timeout[i]); c += b;
-      if (i == 0 && restart_armed) c += 'R'; if (i == 0 && user_paused) c += 'U'; c += live[i] ? 'L' : '.'; c += (char)('0' + std::min(bcall[i], 3)); c += (char)('0' + std::min(bdeliv[i], 3)); c += (char)('0' + std::min(bgot[i], 3)); if (to_conf[i]) c += (vnow - t_arm[i] >= T_MS) ? "C+" : "C-"; }
+    for (int i = 0; i < N; i++) { Mon &m = mon[i]; snprintf(b, sizeof b, "%d%d%d%d%d%d%d%d%d%d%d%d%d%d%d;", m.exp, m.ec + 1, m.er, m.cur + 1, std::min(m.remain, 9), m.k, m.rec[0], m.rec[1], m.rec[2], m.rec[3], (int)m.dwp, (int)m.done, std::min(finals[i], 2), std::min(fdeliv[i], 2), (int)by_timeout[i]); c += b;
+      if (i == 0) { c += (char)('0' + root_mode); c += (char)('0' + std::min(root_times, 9)); } if (i == 0 && restart_armed) c += 'R'; if (i == 0 && user_paused) c += 'U'; c += live[i] ? 'L' : '.'; c += (char)('0' + std::min(bcall[i], 3)); c += (char)('0' + std::min(bdeliv[i], 3)); c += (char)('0' + std::min(bgot[i], 3)); if (to_conf[i]) c += (vnow - t_arm[i] >= T_MS) ? "C+" : "C-"; }
     return c;
   }
 };
@@ -613,15 +676,18 @@ struct World {
 void ProbeLeaf::onStart() {
   Action::onStart(); w->hookStart(ni);
   active = true; blocked = false; runs++;
-  int o = sc.out; if (o == oSF) o = runs == 1 ? oS : oF; else if (o == oFS) o = runs == 1 ? oF : oS; else if (o == oLS) o = oS; else if (o == oLF) o = oF;
-  what = o == oS ? 1 : o == oF ? 2 : o == oB ? 3 : 0; remaining = -1;
+  int o = sc.out; if (o == oSF) o = runs == 1 ? oS : oF; else if (o == oFS) o = runs == 1 ? oF : oS; else if (o == oLS) o = oS; else if (o == oLF) o = oF; else if (o == oLB || o == oBB) o = oB; else if (o == oSX) { o = oS; w->stopFromInside(); }
+  what = o == oS ? 1 : o == oF ? 2 : o == oB ? 3 : 0; remaining = -1; nblocks = 0;
   if (what) arm(sc.delay);
 }
 void ProbeLeaf::onFinished(bool ok, const Reason &r, const Trace &t) { active = false; blocked = false; remaining = -1; w->live[ni] = 0; Action::onFinished(ok, r, t); }
 void ProbeLeaf::fire() {
   remaining = -1; int wh = what;
   if (w->user_paused && !late()) w->V("leaf-completes-while-the-tree-is-paused", "leaf " + std::to_string(ni) + " was still counting down and " + (wh == 3 ? "blocked" : "finished") + " after pause() and before resume()/stop()/reset()");
-  if (wh == 3) { blocked = true; what = 1; w->tr("b%d", ni); if (block(Reason(1000, "probe-block"))) w->bcall[ni]++; }
+  if (wh == 3) { St before = state(); bool over = before == St::kStoped || before == St::kFinished;   // only a late leaf gets here when its run is over
+    what = (sc.out == oBB && ++nblocks < 2) ? 3 : 1; w->tr("b%d", ni); bool acc = block(Reason(1000, "probe-block")); blocked = acc; if (acc) w->bcall[ni]++;
+    if (over && (acc || state() != before)) w->V("block-accepted-after-the-run-was-over", "leaf " + std::to_string(ni) + " called block() while " + World::sname(before) + ": returned " + (acc ? "true" : "false") + ", state now " + World::sname(state()));
+    if (!over && !acc) w->V("block-refused-while-under-way", "leaf " + std::to_string(ni) + " called block() while " + World::sname(before)); }
   else { St before = state(); bool over = before == St::kStoped || before == St::kFinished;   // only a late leaf gets here when its run is over
     active = false; if (!over) w->live[ni] = 0; w->tr(wh == 1 ? "f%d+" : "f%d-", ni); bool acc = finish(wh == 1, Reason(1001, kMsg[sc.msg]));
     if (over && (acc || state() != before)) w->V("finish-accepted-after-the-run-was-over", "leaf " + std::to_string(ni) + " called finish() while " + World::sname(before) + ": returned " + (acc ? "true" : "false") + ", state now " + World::sname(state()));
@@ -639,8 +705,8 @@ template <class T> void LeafTap<T>::onFinal() { this->w->finalHook(this->ni); T:
 
 // ------------------------------------------------------------------------------------------------ exploration
 struct Op { int k; };
-static const char *kOp[] = {"start", "pause", "resume", "stop", "reset", "pass", "advance-timeout", "set-timeout", "reset-timeout"};
-static const int N_OPS = 9;
+static const char *kOp[] = {"start", "pause", "resume", "stop", "reset", "pass", "advance-timeout", "set-timeout", "reset-timeout", "advance+7"};
+static const int N_OPS = 10;
 struct HInfo { uint8_t state, quiescent, queue_empty, timer_armed, to_conf, pending; };
 static double g_deadline = 1e18; static bool g_stop = false; static long g_evals = 0;
 static long T_states = 0, T_trans = 0, T_exec = 0, T_viol = 0, T_redet = 0, T_programs = 0, T_fix = 0, T_diff = 0, T_maxdepth = 0, T_destroy = 0;
@@ -657,19 +723,20 @@ static void report(const Program &P, const std::vector<Op> &h, const std::string
 // evaluate one history on a fresh tree; returns the canonical state after the history (before the drain)
 static std::string evaluate(const Program &P, const std::vector<Op> &h, std::string &viol, HInfo *info, std::string *full_trace = nullptr) {
   World A(P); A.build();
-  int mark = -1, conf_at_mark = 0; bool restart_at_mark = false; size_t markpos = 0; std::vector<int> runs_at_mark;
-  for (size_t k = 0; k < h.size() && A.viol.empty(); k++) { A.op(h[k].k); if (h[k].k == World::O_RESET) { mark = (int)k; markpos = A.trace.size(); conf_at_mark = A.to_conf[0]; restart_at_mark = A.restart_armed; runs_at_mark.clear(); for (int i = 0; i < A.N; i++) runs_at_mark.push_back(A.leaf[i] ? A.leaf[i]->runs : 0); } }
+  int mark = -1, conf_at_mark = 0, mode_at_mark = 0, times_at_mark = 0; bool restart_at_mark = false; size_t markpos = 0; std::vector<int> runs_at_mark;
+  for (size_t k = 0; k < h.size() && A.viol.empty(); k++) { A.op(h[k].k); if (h[k].k == World::O_RESET && !A.gone) { mark = (int)k; markpos = A.trace.size(); conf_at_mark = A.to_conf[0]; mode_at_mark = A.root_mode; times_at_mark = A.root_times; restart_at_mark = A.restart_armed; runs_at_mark.clear(); for (int i = 0; i < A.N; i++) runs_at_mark.push_back(A.leaf[i] ? A.leaf[i]->runs : 0); } }
   std::string canon = A.viol.empty() ? A.canon() : std::string("viol");
-  if (info) { info->state = (uint8_t)A.root->state(); info->quiescent = A.quiescent(); info->queue_empty = A.queueEmpty(); info->timer_armed = A.timerArmed(); info->to_conf = (uint8_t)A.to_conf[0];
+  if (vf_any_missing()) { canon += "~"; for (size_t k = h.size() > 3 ? h.size() - 3 : 0; k < h.size(); k++) canon += (char)('0' + h[k].k); }   // a probed key field is gone: tell apart by the last ops instead
+  if (info) { info->state = A.gone ? 9 : (uint8_t)A.root->state(); info->quiescent = A.quiescent(); info->queue_empty = A.queueEmpty(); info->timer_armed = A.timerArmed(); info->to_conf = (uint8_t)A.to_conf[0];
     info->pending = !A.queueEmpty() || World::heapMin() >= 0; }
-  if (A.viol.empty()) A.probes();
+  if (A.viol.empty() && !A.gone) A.probes();
   if (A.viol.empty()) A.epilogue();
   std::string atrace = A.trace, aviol = A.viol, status = A.end_status; bool stale_replay = A.stale_replay_ran; A.destroy();
   if (aviol.empty() && mark >= 0) {   // differential oracle: continuation after the last reset == same continuation on a freshly built tree
     T_diff++;
-    World B(P); B.build(conf_at_mark); B.restart_armed = restart_at_mark; for (int i = 0; i < B.N; i++) if (B.leaf[i]) B.leaf[i]->runs = runs_at_mark[i];   // same environment: a leaf's outcome depends on how often it ran before
+    World B(P); B.build(conf_at_mark, mode_at_mark, times_at_mark); B.restart_armed = restart_at_mark; for (int i = 0; i < B.N; i++) if (B.leaf[i]) B.leaf[i]->runs = runs_at_mark[i];   // same environment: a leaf's outcome depends on how often it ran before
     for (size_t k = (size_t)mark + 1; k < h.size() && B.viol.empty(); k++) B.op(h[k].k);
-    if (B.viol.empty()) B.probes();
+    if (B.viol.empty() && !B.gone) B.probes();
     if (B.viol.empty()) B.epilogue();
     std::string btrace = B.trace; bool bv = !B.viol.empty(); bool both_endless = status == "endless-loop" && B.end_status == "endless-loop"; B.destroy();
     std::string acont = atrace.substr(markpos);
@@ -691,7 +758,7 @@ static void destroy_probe(const Program &P, const std::vector<Op> &h, std::strin
   T_destroy++;
   World C(P); C.build(); C.quiet_trace = true;
   for (size_t k = 0; k < h.size() && C.viol.empty(); k++) C.op(h[k].k);
-  if (!C.viol.empty()) { C.destroy(); return; }     // (already reported by evaluate)
+  if (!C.viol.empty() || C.gone) { C.destroy(); return; }     // (already reported by evaluate / already deleted by its own finish callback)
   hx::set_current("program#" + std::to_string(P.index) + " " + P.text + " ; history: " + hist_text(h) + " destroy");
   C.destroyLive();
   if (!C.viol.empty()) { viol = C.viol; std::vector<Op> h2 = h; report(P, h2, C.viol + " [history followed by: delete the tree, run the loop]", C.trace); }
@@ -716,9 +783,11 @@ static void explore_program(const Program &P, size_t depth) {
       case St::kRunning: m.push_back(Op{World::O_PAUSE}); m.push_back(Op{World::O_STOP}); m.push_back(Op{World::O_RESET}); break;
       case St::kPause: m.push_back(Op{World::O_RESUME}); m.push_back(Op{World::O_STOP}); m.push_back(Op{World::O_RESET}); break;
       case St::kFinished: case St::kStoped: m.push_back(Op{World::O_RESET}); break;
+      default: break;   // (9: the tree deleted itself)
     }
     if (!f.quiescent) m.push_back(Op{World::O_PASS});
     if (f.timer_armed) m.push_back(Op{World::O_ADV});
+    if (f.timer_armed && (g_lane == 'X' || g_lane == 'T')) m.push_back(Op{World::O_ADV7});
     if (g_lane == 'T' && (s == St::kRunning || s == St::kPause)) { m.push_back(Op{World::O_SETTO}); if (f.to_conf) m.push_back(Op{World::O_RSTTO}); }
     return m; };
   std::unordered_set<std::string> destroyed_at;
